@@ -150,7 +150,6 @@ def run(ck, F, tier):
         ("bch", "frame_errors"): (1, "bch-fail"),
         ("bch", "correct_iterations"): ("iterations", "bch-ok"),
     }
-    ck.floor("G2", "accumulator update sites", sum(len(v) for v in updates.values()), 9)
     for fp, (src, cond) in expect.items():
         evs = updates.get(fp, [])
         ok = len(evs) == 1
@@ -193,6 +192,8 @@ def run(ck, F, tier):
             ok = op_ok and rhs_ok and in_ok_arm and in_loop and c_ok
             why = "%s += %s under %s [op %s, source %s, Ok arm %s, condition %s]" % (".".join(fp), repr(rhs)[:60], cond or "every result", op_ok, rhs_ok, in_ok_arm, c_ok)
         ck.inst("G2", "update:" + ".".join(fp), ok, evs[0].site if evs else rb.span, why)
+    # (after the per-counter instances: a missing update is a verdict about that counter, not an unreadable shape)
+    ck.floor("G2", "accumulator update sites", sum(len(v) for v in updates.values()), 9)
     others = [fp for fp in updates if fp not in expect]
     ck.inst("G2", "no-other-updates", not others, rb.span, "no accumulator update besides the nine documented ones" if not others else "unexpected updates %s" % others)
     sb = F.body(W + "simulate")
@@ -309,6 +310,65 @@ def run(ck, F, tier):
     rets = after
     ck.inst("G5", "returns-after-join", ret_ok, rets[0].site if rets else rb.span,
             "a worker failure is propagated only after every worker has been joined (%d exit site(s) after the last join, %d before the first)" % (len(after), len(before)))
+    # every worker that did not end with Ok(()) - its own error or a panic - makes the point fail: evaluated for the three outcomes of join()
+    from ..transformer import Grid
+    from ..symx import NotEvaluable
+    wf_ok, whyw = False, "join() not found"
+    if joins:
+        jl = joins[0]["loops"]
+        sites_ = [st for st in tr.assign_sites if st[2] and list(st[2]) == list(jl)]
+        names_ = {st[0].split("#")[0] for st in sites_}
+        whyw = "%d store(s) to %s in the join loop" % (len(sites_), sorted(names_))
+        if not sites_:
+            # fold spelling: workers.into_iter().fold(None, |failure, (handle, _)| match handle.join() { .. })
+            jb = F.bodies.get(joins[0].get("fn") or "") or rb
+            folds = [n for n in walk(jb.value) if n.get("k") == "mcall" and n["m"] == "fold" and len(n.get("args", [])) == 2
+                     and strip(n["args"][1]).get("k") == "closure" and any(x.get("k") == "mcall" and x["m"] == "join" for x in walk(n["args"][1]))]
+            whyw = "no store in the join loop and %d fold over the join results" % len(folds)
+            if len(folds) == 1:
+                clo_ = strip(folds[0]["args"][1])
+                try:
+                    init_ = tr.eval(folds[0]["args"][0], {})
+                    stepv = Tracer(F, "NONE").apply(("closure", clo_, {}), [var("acc#g"), ("tuple", [var("handle#g"), var("t#g")])])
+                    wf_ok = init_ == ("variant", "None")
+                    for outcome, must in ((("Ok", ("Ok", ())), False), (("Ok", ("Err", "E")), True), (("Err", "PANIC"), True)):
+                        g = Grid({"acc#g": "ACC"}, {"join": lambda *a_, outcome=outcome: outcome, "into": lambda x_: x_, "from": lambda x_: x_})
+                        r_ = g.value(stepv)
+                        if must != (isinstance(r_, tuple) and r_[0] == "Some") or (not must and r_ != "ACC"):
+                            wf_ok = False
+                            whyw = "join() = %r: the fold step gives %r" % (outcome, r_)
+                    # (the function holding the joins may itself be a helper expanded into run(): its Err exit is a <return-inner>)
+                    ret_err = [e for e in tr.events if e.callee in ("<return>", "<return-inner>") and e.seq > joins[-1]["seq"] and isinstance(e.args[0], tuple)
+                               and e.args[0][:2] == ("ctor", "Err") and any("Iterator::fold(" in repr(g_) for g_, p_ in e.guards)]
+                    if not ret_err:
+                        # the fold result is the helper's own result and the caller applies `?` to it
+                        ret_err = [e for e in after if e.callee == "<try>" and "Iterator::fold(" in repr(e.args[0])][:1]
+                    wf_ok = wf_ok and len(ret_err) == 1
+                    if wf_ok:
+                        whyw = "fold from None: a worker's own error and a panic both give Some(error), Ok(()) keeps the accumulator; Some(error) is returned as Err after the joins"
+                except (Unsupported, NotEvaluable, TypeError) as ex:
+                    wf_ok, whyw = False, "fold step not evaluable: %s" % ex
+        elif len(names_) == 1:
+            nm_ = next(iter(names_))
+            try:
+                wf_ok = True
+                for outcome, must in ((("Ok", ("Ok", ())), False), (("Ok", ("Err", "E")), True), (("Err", "PANIC"), True)):
+                    g = Grid({}, {"join": lambda *a_, outcome=outcome: outcome, "into": lambda x_: x_, "from": lambda x_: x_})
+                    fired = [st for st in sites_ if g.holds(st[3])]
+                    somes = [st for st in fired if isinstance(st[1], tuple) and len(st[1]) == 3 and st[1][:2] == ("ctor", "Some")]
+                    if (len(somes) >= 1) != must or len(fired) != len(somes):
+                        wf_ok = False
+                        whyw = "join() = %r: %d store(s), %d of a Some(error)" % (outcome, len(fired), len(somes))
+                # ... and the collected failure is what the point returns
+                after_v = nm_ + "@after"
+                ret_err = [e for e in tr.events if e.callee in ("<return>", "<return-inner>") and e.seq > joins[-1]["seq"] and isinstance(e.args[0], tuple)
+                           and e.args[0][:2] == ("ctor", "Err") and any(after_v in repr(g_) and p_ for g_, p_ in e.guards)]
+                wf_ok = wf_ok and len(ret_err) == 1
+                if wf_ok:
+                    whyw = "a worker's own error and a panic both set %s = Some(error), Ok(()) leaves it alone; Some(error) is returned as Err after the joins" % nm_
+            except (NotEvaluable, TypeError) as ex:
+                wf_ok, whyw = False, "not evaluable: %s" % ex
+    ck.inst("G5", "worker-failure-reported", wf_ok, joins[0]["sp"] if joins else rb.span, whyw)
     runb = F.body(T + "run")
     trr = Tracer(F, re.escape(T) + r"do_run|std::sync::mpsc::Sender::<T>::send", mode="int")
     env = {}
